@@ -77,7 +77,7 @@ Notes
   faults at one specific point of a history; R7-R9: changes that are hard to hit by chance - thresholds, coincidences of
   conditions, event orders, odd user objects, rarely used entry points, compiled-only).
 * `sweep_default_seed.txt` is the raw output of the last sweep (one row per seeded change and check, with the earliest violating
-  case and how many of the 16 workers found one); `sweep_seed_1_waves_1_to_8.txt` is the same for VERIF_SEED=1 (waves 1-8).
+  case and how many of the 16 workers found one); `sweep_seed_1.txt` is the same for VERIF_SEED=1 (its last 26 rows: the ninth wave and the entries re-based onto the last fix).
 * `C08-m1` / `C08-m2` of the first C08 sub-agent are not kept: after the fixes b5054cf (failing lazy Future no longer escapes) and
   046c437 (scheduled batches are cleared when the outermost wait ends) their demonstrations pass on the mutated tree, i.e. they no longer
   break the property; `C08b-*` and `R2C08-*` were written against the repaired code.
